@@ -9,8 +9,18 @@ import Proofs.Lemmas.C19Transforms
 namespace Flatland.C11.Proofs
 open Flatland.C11 Flatland.Markup Flatland.C19.Proofs
 
+/-- every attribute is a plain string under a valid name — except under the (option) keys `ks`,
+    which are still to be consumed by their transforms and may hold `True/False/Maybe` -/
+def GoodAttrsX (ks : List Str) (a : Attrs) : Prop :=
+  ∀ kv ∈ a, kv.1 ∈ ks ∨ ((∃ s, kv.2 = Val.text s) ∧ validName kv.1 = true)
+
 /-- every attribute is a plain string under a valid name -/
 def GoodAttrs (a : Attrs) : Prop := ∀ kv ∈ a, (∃ s, kv.2 = Val.text s) ∧ validName kv.1 = true
+
+theorem goodX_nil {a : Attrs} (h : GoodAttrsX [] a) : GoodAttrs a := by
+  intro kv hm; rcases h kv hm with h | h
+  · simp at h
+  · exact h
 
 theorem mem_set {a : Attrs} {k : Str} {v : Val} {kv : Str × Val} (h : kv ∈ Dict.set a k v) :
     kv = (k, v) ∨ kv ∈ a := by
@@ -44,21 +54,51 @@ theorem mem_erase {a : Attrs} {k : Str} {kv : Str × Val} (h : kv ∈ Dict.erase
       · left; exact h
       · right; exact ih h
 
-theorem GoodAttrs.set {a : Attrs} (h : GoodAttrs a) (k s : Str) (hk : validName k = true) :
-    GoodAttrs (Dict.set a k (.text s)) := by
+theorem GoodAttrsX.set {ks : List Str} {a : Attrs} (h : GoodAttrsX ks a) (k s : Str) (hk : validName k = true) :
+    GoodAttrsX ks (Dict.set a k (.text s)) := by
   intro kv hm
   rcases mem_set hm with rfl | hm
-  · exact ⟨⟨s, rfl⟩, hk⟩
+  · exact Or.inr ⟨⟨s, rfl⟩, hk⟩
   · exact h kv hm
 
-theorem GoodAttrs.erase {a : Attrs} (h : GoodAttrs a) (k : Str) : GoodAttrs (Dict.erase a k) :=
+theorem GoodAttrsX.erase {ks : List Str} {a : Attrs} (h : GoodAttrsX ks a) (k : Str) : GoodAttrsX ks (Dict.erase a k) :=
   fun kv hm => h kv (mem_erase hm)
 
-theorem GoodAttrs.toggle {a : Attrs} (h : GoodAttrs a) (k : Str) (on : Bool) (hk : validName k = true) :
-    GoodAttrs (toggleAttr a k on) := by
+theorem GoodAttrsX.toggle {ks : List Str} {a : Attrs} (h : GoodAttrsX ks a) (k : Str) (on : Bool)
+    (hk : validName k = true) : GoodAttrsX ks (toggleAttr a k on) := by
   unfold toggleAttr; split
   · exact h.set k k hk
   · exact h.erase k
+
+theorem mem_erase_ne {a : Attrs} {k : Str} {kv : Str × Val} (hn : (Dict.keys a).Nodup) (h : kv ∈ Dict.erase a k) :
+    kv.1 ≠ k := by
+  induction a with
+  | nil => simp [Dict.erase] at h
+  | cons p rest ih =>
+    obtain ⟨k0, v0⟩ := p
+    simp only [Dict.keys, List.map_cons, List.nodup_cons] at hn
+    simp only [Dict.erase] at h
+    split at h
+    · rename_i h0
+      subst h0
+      intro e
+      exact hn.1 (List.mem_map.mpr ⟨kv, h, e⟩)
+    · rename_i h0
+      simp only [List.mem_cons] at h
+      rcases h with rfl | h
+      · exact h0
+      · exact ih hn.2 h
+
+/-- consuming an option key: what is left no longer needs the exception for it -/
+theorem GoodAttrsX.pop {ks : List Str} {a : Attrs} {key : Str} (hn : (Dict.keys a).Nodup)
+    (h : GoodAttrsX (key :: ks) a) : GoodAttrsX ks (Dict.erase a key) := by
+  intro kv hm
+  rcases h kv (mem_erase hm) with hk | hg
+  · simp only [List.mem_cons] at hk
+    rcases hk with hk | hk
+    · exact absurd hk (mem_erase_ne hn hm)
+    · exact Or.inl hk
+  · exact Or.inr hg
 
 /-- the contents are what the author gave, or the escaped text of the bound element -/
 def ContentsOK (T : Tables) (bnd : Option Bind) (c0 c : Option Val) : Prop :=
@@ -70,17 +110,19 @@ macro "good_leaves" h:ident hs:ident hg:ident : tactic =>
       | (simp only [pure, Except.pure, Except.ok.injEq] at $h:ident; subst $h:ident; simp only [$hs:ident];
          refine ⟨?_, ?_⟩
          · repeat (first
-             | exact GoodAttrs.erase $hg _
-             | apply GoodAttrs.toggle _ _ _ (by decide)
-             | apply GoodAttrs.set _ _ _ (by decide)
-             | apply GoodAttrs.erase)
+             | exact $hg
+             | apply GoodAttrsX.toggle _ _ _ (by decide)
+             | apply GoodAttrsX.set _ _ _ (by decide)
+             | apply GoodAttrsX.erase)
          · first
              | exact Or.inl rfl
              | exact Or.inr ⟨_, rfl, rfl⟩))
 
-theorem transformName_good {T : Tables} {tag : Str} {bnd : Option Bind} {st st' : TState}
-    (hg : GoodAttrs st.attrs) (h : transformName T tag bnd st = .ok st') :
-    GoodAttrs st'.attrs ∧ ContentsOK T bnd st.contents st'.contents := by
+theorem transformName_good {T : Tables} {tag : Str} {bnd : Option Bind} {st st' : TState} {ks : List Str}
+    (hn : (Dict.keys st.attrs).Nodup) (hg0 : GoodAttrsX ("auto_name".toList :: ks) st.attrs)
+    (h : transformName T tag bnd st = .ok st') :
+    GoodAttrsX ks st'.attrs ∧ ContentsOK T bnd st.contents st'.contents := by
+  have hg := hg0.pop hn
   unfold transformName at h
   simp only [bind, Except.bind, pure, Except.pure] at h
   cases hp : popToggle T "auto_name".toList st.attrs st.ctx with
@@ -90,9 +132,11 @@ theorem transformName_good {T : Tables} {tag : Str} {bnd : Option Bind} {st st' 
     rw [hp] at h; simp only at h
     good_leaves h hs hg
 
-theorem transformValue_good {T : Tables} {tag : Str} {bnd : Option Bind} {st st' : TState}
-    (hg : GoodAttrs st.attrs) (h : transformValue T tag bnd st = .ok st') :
-    GoodAttrs st'.attrs ∧ ContentsOK T bnd st.contents st'.contents := by
+theorem transformValue_good {T : Tables} {tag : Str} {bnd : Option Bind} {st st' : TState} {ks : List Str}
+    (hn : (Dict.keys st.attrs).Nodup) (hg0 : GoodAttrsX ("auto_value".toList :: ks) st.attrs)
+    (h : transformValue T tag bnd st = .ok st') :
+    GoodAttrsX ks st'.attrs ∧ ContentsOK T bnd st.contents st'.contents := by
+  have hg := hg0.pop hn
   unfold transformValue at h
   simp only [bind, Except.bind, pure, Except.pure] at h
   cases hp : popToggle T "auto_value".toList st.attrs st.ctx with
@@ -102,9 +146,11 @@ theorem transformValue_good {T : Tables} {tag : Str} {bnd : Option Bind} {st st'
     rw [hp] at h; simp only at h
     good_leaves h hs hg
 
-theorem transformDomid_good {T : Tables} {tag : Str} {bnd : Option Bind} {st st' : TState}
-    (hg : GoodAttrs st.attrs) (h : transformDomid T tag bnd st = .ok st') :
-    GoodAttrs st'.attrs ∧ ContentsOK T bnd st.contents st'.contents := by
+theorem transformDomid_good {T : Tables} {tag : Str} {bnd : Option Bind} {st st' : TState} {ks : List Str}
+    (hn : (Dict.keys st.attrs).Nodup) (hg0 : GoodAttrsX ("auto_domid".toList :: ks) st.attrs)
+    (h : transformDomid T tag bnd st = .ok st') :
+    GoodAttrsX ks st'.attrs ∧ ContentsOK T bnd st.contents st'.contents := by
+  have hg := hg0.pop hn
   unfold transformDomid at h
   simp only [bind, Except.bind, pure, Except.pure] at h
   cases hp : popToggle T "auto_domid".toList st.attrs st.ctx with
@@ -114,9 +160,11 @@ theorem transformDomid_good {T : Tables} {tag : Str} {bnd : Option Bind} {st st'
     rw [hp] at h; simp only at h
     good_leaves h hs hg
 
-theorem transformFor_good {T : Tables} {tag : Str} {bnd : Option Bind} {st st' : TState}
-    (hg : GoodAttrs st.attrs) (h : transformFor T tag bnd st = .ok st') :
-    GoodAttrs st'.attrs ∧ ContentsOK T bnd st.contents st'.contents := by
+theorem transformFor_good {T : Tables} {tag : Str} {bnd : Option Bind} {st st' : TState} {ks : List Str}
+    (hn : (Dict.keys st.attrs).Nodup) (hg0 : GoodAttrsX ("auto_for".toList :: ks) st.attrs)
+    (h : transformFor T tag bnd st = .ok st') :
+    GoodAttrsX ks st'.attrs ∧ ContentsOK T bnd st.contents st'.contents := by
+  have hg := hg0.pop hn
   unfold transformFor at h
   simp only [bind, Except.bind, pure, Except.pure] at h
   cases hp : popToggle T "auto_for".toList st.attrs st.ctx with
@@ -126,9 +174,11 @@ theorem transformFor_good {T : Tables} {tag : Str} {bnd : Option Bind} {st st' :
     rw [hp] at h; simp only at h
     good_leaves h hs hg
 
-theorem transformTabindex_good {T : Tables} {tag : Str} {bnd : Option Bind} {st st' : TState}
-    (hg : GoodAttrs st.attrs) (h : transformTabindex T tag bnd st = .ok st') :
-    GoodAttrs st'.attrs ∧ ContentsOK T bnd st.contents st'.contents := by
+theorem transformTabindex_good {T : Tables} {tag : Str} {bnd : Option Bind} {st st' : TState} {ks : List Str}
+    (hn : (Dict.keys st.attrs).Nodup) (hg0 : GoodAttrsX ("auto_tabindex".toList :: ks) st.attrs)
+    (h : transformTabindex T tag bnd st = .ok st') :
+    GoodAttrsX ks st'.attrs ∧ ContentsOK T bnd st.contents st'.contents := by
+  have hg := hg0.pop hn
   unfold transformTabindex at h
   simp only [bind, Except.bind, pure, Except.pure] at h
   cases hp : popToggle T "auto_tabindex".toList st.attrs st.ctx with
@@ -138,9 +188,11 @@ theorem transformTabindex_good {T : Tables} {tag : Str} {bnd : Option Bind} {st 
     rw [hp] at h; simp only at h
     good_leaves h hs hg
 
-theorem transformFilters_good {T : Tables} {tag : Str} {bnd : Option Bind} {st st' : TState}
-    (hg : GoodAttrs st.attrs) (h : transformFilters T tag bnd st = .ok st') :
-    GoodAttrs st'.attrs ∧ ContentsOK T bnd st.contents st'.contents := by
+theorem transformFilters_good {T : Tables} {tag : Str} {bnd : Option Bind} {st st' : TState} {ks : List Str}
+    (hn : (Dict.keys st.attrs).Nodup) (hg0 : GoodAttrsX ("auto_filter".toList :: ks) st.attrs)
+    (h : transformFilters T tag bnd st = .ok st') :
+    GoodAttrsX ks st'.attrs ∧ ContentsOK T bnd st.contents st'.contents := by
+  have hg := hg0.pop hn
   unfold transformFilters at h
   simp only [bind, Except.bind, pure, Except.pure] at h
   cases hp : popToggle T "auto_filter".toList st.attrs st.ctx with
@@ -162,7 +214,7 @@ theorem ContentsOK.trans {T : Tables} {bnd : Option Bind} {c0 c1 c2 : Option Val
   · exact Or.inr h2
 
 theorem transform_good {T : Tables} {tag : Str} {bnd : Option Bind} {st st6 : TState}
-    (hg : GoodAttrs st.attrs) (h : transform T tag bnd st = .ok st6) :
+    (hn : (Dict.keys st.attrs).Nodup) (hg : GoodAttrsX optionKeys st.attrs) (h : transform T tag bnd st = .ok st6) :
     GoodAttrs st6.attrs ∧ ContentsOK T bnd st.contents st6.contents := by
   unfold transform at h
   simp only [bind, Except.bind] at h
@@ -186,33 +238,47 @@ theorem transform_good {T : Tables} {tag : Str} {bnd : Option Bind} {st st6 : TS
           | error e => rw [h5] at h; simp at h
           | ok s5 =>
             rw [h5] at h; simp only at h
-            obtain ⟨g1, c1⟩ := transformName_good hg h1
-            obtain ⟨g2, c2⟩ := transformValue_good g1 h2
-            obtain ⟨g3, c3⟩ := transformDomid_good g2 h3
-            obtain ⟨g4, c4⟩ := transformFor_good g3 h4
-            obtain ⟨g5, c5⟩ := transformTabindex_good g4 h5
-            obtain ⟨g6, c6⟩ := transformFilters_good g5 h
-            exact ⟨g6, ((((c1.trans c2).trans c3).trans c4).trans c5).trans c6⟩
+            have n1 := (transformName_reach h1).nodup (Dict.nodup_erase _ _ hn)
+            have n2 := (transformValue_reach h2).nodup (Dict.nodup_erase _ _ n1)
+            have n3 := (transformDomid_reach h3).nodup (Dict.nodup_erase _ _ n2)
+            have n4 := (transformFor_reach h4).nodup (Dict.nodup_erase _ _ n3)
+            have n5 := (transformTabindex_reach h5).nodup (Dict.nodup_erase _ _ n4)
+            obtain ⟨g1, c1⟩ := transformName_good hn hg h1
+            obtain ⟨g2, c2⟩ := transformValue_good n1 g1 h2
+            obtain ⟨g3, c3⟩ := transformDomid_good n2 g2 h3
+            obtain ⟨g4, c4⟩ := transformFor_good n3 g3 h4
+            obtain ⟨g5, c5⟩ := transformTabindex_good n4 g4 h5
+            obtain ⟨g6, c6⟩ := transformFilters_good n5 g5 h
+            exact ⟨goodX_nil g6, ((((c1.trans c2).trans c3).trans c4).trans c5).trans c6⟩
 
-/-- keyword arguments that are plain strings under names that are valid once `_`-stripped -/
+/-- keyword arguments of the declared domain: each is one of the six `auto_*` options (any value:
+    str, True/False, Maybe) or a plain string under a name of the declared grammar
+    (`[a-z][a-z0-9_:.-]*` once trailing underscores are stripped) -/
 def GoodKwargs (kw : List (Str × Val)) : Prop :=
-  ∀ kv ∈ kw, (∃ s, kv.2 = Val.text s) ∧ validName (rstripUnderscore kv.1) = true
+  ∀ kv ∈ kw, rstripUnderscore kv.1 ∈ optionKeys ∨
+    ((∃ s, kv.2 = Val.text s) ∧ lowerName (rstripUnderscore kv.1) = true)
 
-theorem transformKeys_good (kw : List (Str × Val)) (h : GoodKwargs kw) : GoodAttrs (transformKeys kw) := by
+theorem mem_set' {a : Attrs} {k : Str} {v : Val} {kv : Str × Val} (h : kv ∈ Dict.set a k v) :
+    kv = (k, v) ∨ kv ∈ a := mem_set h
+
+theorem transformKeys_good (kw : List (Str × Val)) (h : GoodKwargs kw) : GoodAttrsX optionKeys (transformKeys kw) := by
   unfold transformKeys
-  suffices ∀ (d : Attrs), GoodAttrs d →
-      GoodAttrs (kw.foldl (fun d kv => Dict.set d (rstripUnderscore kv.1) kv.2) d) from
+  suffices ∀ (d : Attrs), GoodAttrsX optionKeys d →
+      GoodAttrsX optionKeys (kw.foldl (fun d kv => Dict.set d (rstripUnderscore kv.1) kv.2) d) from
     this [] (fun kv hm => by simp at hm)
   induction kw with
   | nil => intro d hd; exact hd
   | cons kv rest ih =>
     intro d hd
     have hkv := h kv (by simp)
-    obtain ⟨⟨s, hs⟩, hv⟩ := hkv
     simp only [List.foldl_cons]
     apply ih (fun x hx => h x (by simp [hx]))
-    rw [hs]
-    exact hd.set _ s hv
+    intro x hm
+    rcases mem_set' hm with rfl | hm
+    · rcases hkv with hk | ⟨hs, hv⟩
+      · exact Or.inl hk
+      · exact Or.inr ⟨hs, lowerName_valid hv⟩
+    · exact hd x hm
 
 theorem goodAttrs_as_text (a : List (Str × Val)) (h : GoodAttrs a) :
     ∃ attrs : List (Str × Str), a = attrs.map (fun kv => (kv.1, Val.text kv.2)) ∧
@@ -231,7 +297,7 @@ theorem goodAttrs_as_text (a : List (Str × Val)) (h : GoodAttrs a) :
     · exact hk
     · exact hv kv hm
 
-theorem goodAttrs_orderPairs (order : List Str) (o : Bool) (a : Attrs) (h : GoodAttrs a) :
+theorem goodAttrs_orderPairs (order : List Str) (o : Bool) (a : List (Str × Val)) (h : GoodAttrs a) :
     GoodAttrs (orderPairs order o a) := by
   unfold orderPairs
   split
